@@ -763,6 +763,43 @@ def plan_C10(ctx):
                     cmds.append({"op": "evaluate", "obj": oid, "x": x, "ws": 20 + n_, "costs": cp, "overload": ov})
                     cmds.append({"op": "evaluate", "obj": oid, "x": x, "ws": 0, "costs": cp, "overload": ov})
                 wexecs.append((len(cmds) * D * (order + 1), cmds))
+    # an optimizer re-initialised with a reference problem that differs from its current one in ONE respect (waypoints, boundary states,
+    # start time, one duration), evaluated with its built-in and an external workspace, against a second optimizer configured from scratch
+    import copy as _copy
+    for rep in range(1 if ctx.quick() else 12):
+        for order in gen.ORDERS:
+            for fam in FAMILIES:
+                for what in ("P", "bc", "t0", "oneT"):
+                    D = r.choice([1, 2, 3])
+                    N = r.choice([1, 2, 3])
+                    p1 = gen.OptProblem(r, order, D, N, fam[0], fam[1])
+                    p2 = _copy.deepcopy(p1)
+                    if what == "P":
+                        q = gen.OptProblem(r, order, D, N, fam[0], fam[1])
+                        p2.P = q.P
+                    elif what == "bc":
+                        kk = r.choice(["sv", "ev"] if order == 3 else ["sv", "sa", "ev", "ea"] if order == 5 else ["sv", "sa", "sj", "ev", "ea", "ej"])
+                        p2.bc[kk][r.randrange(D)] += 0.75
+                    elif what == "t0":
+                        p2.t0 = p1.t0 + r.choice([2.5, -1.25])
+                    else:
+                        i = r.randrange(N)
+                        p2.taus_ref[i] = -p2.taus_ref[i] if p2.taus_ref[i] != 0 else 0.25
+                        p2.T[i] = p2.totime(p2.taus_ref[i])
+                    how = r.choice(["durs", "pts"])
+                    x1, x2, cp = gen.hv(p1.x(r)), gen.hv(p2.x(r)), gen.cost_params(r)
+                    cmds = [{"op": "reset"}] + p1.cmds_setup(1, how=how)
+                    cmds.append({"op": "evaluate", "obj": 1, "x": x1, "ws": 0, "costs": cp, "overload": 3})
+                    cmds.append({"op": "evaluate", "obj": 1, "x": x1, "ws": 9, "costs": cp, "overload": 3})
+                    cmds.append(p2.cmd_init(1, how))
+                    cmds.append({"op": "evaluate", "obj": 1, "x": x2, "ws": 0, "costs": cp, "overload": 3})
+                    cmds.append({"op": "evaluate", "obj": 1, "x": x2, "ws": 9, "costs": cp, "overload": 3})
+                    cmds.append({"op": "init_guess", "obj": 1})
+                    cmds += p2.cmds_setup(2, how=how)
+                    cmds.append({"op": "evaluate", "obj": 2, "x": x2, "ws": 0, "costs": cp, "overload": 3})
+                    cmds.append({"op": "evaluate", "obj": 2, "x": x2, "ws": 21, "costs": cp, "overload": 3})
+                    cmds.append({"op": "init_guess", "obj": 2})
+                    wexecs.append((len(cmds) * D * (order + 1), cmds))
     ctx.family, ctx.tracespec, ctx.env_flags = "opt", "TraceOpt", {"VJ_EXACT": "0"}
     replay_and_validate(ctx, vbuild.opt_replay(), balanced(wexecs, 16 if ctx.quick() else 48), "TraceOpt", {"VJ_EXACT": "0"}, label="w")
     return finish(ctx, "model_checking",
